@@ -120,6 +120,14 @@ func (c01) Exec(seed int64, i int, tier string) Record {
 		if (i/16)%2 == 0 {
 			return c01RegexDirectCase(CaseRng(seed, "C01", i))
 		}
+	case 12:
+		if (i/16)%2 == 0 {
+			return c01AggContainersCase(CaseRng(seed, "C01", i)) // b14_helpers.go
+		}
+	case 4:
+		if (i/16)%2 == 0 {
+			return c01SecondCallWideCase(CaseRng(seed, "C01", i)) // b14_helpers.go
+		}
 	case 2:
 		// numbers at the edge of float64 / int64 in a UseNumber document (b10_helpers.go): exactly the members the
 		// comparison holds for — a number compares as the float64 nearest to its text, ±Inf beyond the range
